@@ -22,6 +22,12 @@ INFIX = tuple(PREC)
 RAD50 = " ABCDEFGHIJKLMNOPQRSTUVWXYZ$.%0123456789"
 
 
+# the assembler accepts an instruction at an odd address silently (only data words are checked); checks that want to judge such
+# programs (C04: what decides a branch is the distance, not the parity of its ends) switch this on for their process
+ODD_INSN_OK = False
+ZERO_PRODUCT_SKIPS = False
+
+
 class RefError(Exception):
     """The reference says this construct must be rejected; .ident is the expected diagnostic identifier (or None = any)."""
 
@@ -64,6 +70,23 @@ def ev(e, env):
         return {"+": v, "-": -v, "~": ~v, "^C": ~v}[e[1]]
     if k == "bin":
         op = e[1]
+        if op == "*" and ZERO_PRODUCT_SKIPS:
+            # predicate of the listed finding 'zero-product-unevaluated': an operand whose co-factor is zero is not evaluated at all,
+            # so an error inside it goes unreported and the product is 0
+            vals = []
+            for sub in (e[2], e[3]):
+                try:
+                    vals.append(ev(sub, env))
+                except RefError as ex:
+                    vals.append(ex)
+            if isinstance(vals[0], RefError) and not isinstance(vals[1], RefError) and vals[1] == 0:
+                return 0
+            if isinstance(vals[1], RefError) and not isinstance(vals[0], RefError) and vals[0] == 0:
+                return 0
+            for v in vals:
+                if isinstance(v, RefError):
+                    raise v
+            return vals[0] * vals[1]
         a, b = ev(e[2], env), ev(e[3], env)
         if op == "+":
             return a + b
@@ -975,7 +998,7 @@ class Ref:
         st = seg.st
         k = st.k
         if k == "insn":
-            if seg.addr % 2:
+            if seg.addr % 2 and not ODD_INSN_OK:
                 raise Unmodelled("instruction at an odd address")
             kinds = pdp11_ref.MNEMONICS[st.name][1]
             exp = []
